@@ -37,6 +37,13 @@ theorem ext_modify (cs : List Conn) (c : Nat) : Ext cs (cs.modify c (fun x => { 
   · subst h; simp [hx]
   · simp [h, hx]
 
+theorem ext_vanish (cs : List Conn) (c : Nat) : Ext cs (cs.modify c (fun x => { x with gone := true })) := by
+  refine ⟨by simp, fun i x hx => ?_⟩
+  rw [List.getElem?_modify]
+  by_cases h : c = i
+  · subst h; simp [hx]
+  · simp [h, hx]
+
 theorem ext_closeConns (ids : List Nat) : ∀ cs : List Conn, Ext cs (closeConns cs ids) := by
   induction ids with
   | nil => intro cs; exact Ext.refl cs
@@ -440,15 +447,56 @@ theorem inv_request {s : St} (hI : Inv s) (isRead : Bool) : Inv (request s isRea
     · next s2 _ heq2 => rw [heq2] at h2; exact h2
   · next s1 heq => rw [heq] at h1; exact h1
 
+theorem deliver_ext (s : St) (c : Nat) : Ext s.conns (deliver s c).1.conns ∧ (deliver s c).1.pools = s.pools := by
+  unfold deliver
+  cases s.conns[c]? with
+  | none => exact ⟨Ext.refl _, rfl⟩
+  | some x =>
+    simp only
+    split
+    · exact ⟨ext_modify _ c, rfl⟩
+    · exact ⟨Ext.refl _, rfl⟩
+
+theorem serve_pools (s : St) (isRead : Bool) : (serve s isRead).1.pools = (request s isRead).1.pools := by
+  unfold serve
+  split
+  · next s1 c heq =>
+    rw [heq]
+    have := (deliver_ext s1 c).2
+    split
+    · next s2 h2 => rw [h2] at this; exact this
+    · next s2 h2 => rw [h2] at this; exact this
+  · next s1 heq => rw [heq]
+
+theorem serve_ext (s : St) (isRead : Bool) : Ext (request s isRead).1.conns (serve s isRead).1.conns := by
+  unfold serve
+  split
+  · next s1 c heq =>
+    rw [heq]
+    have := (deliver_ext s1 c).1
+    split
+    · next s2 h2 => rw [h2] at this; exact this
+    · next s2 h2 => rw [h2] at this; exact this
+  · next s1 heq => rw [heq]; exact Ext.refl _
+
+theorem inv_serve {s : St} (hI : Inv s) (isRead : Bool) : Inv (serve s isRead).1 := by
+  have h1 := inv_request hI isRead
+  have h2 := inv_conns h1 (serve_ext s isRead)
+  intro q ql hq
+  rw [serve_pools] at hq
+  have := h2 q ql hq
+  exact poolOK_ext (s := { (request s isRead).1 with conns := (serve s isRead).1.conns }) this (Ext.refl _) _
+
 theorem inv_step {s : St} (hI : Inv s) (op : Op) : Inv (step s op) := by
   cases op with
   | get p => exact inv_get hI (s' := (get s p).1) (r := (get s p).2) rfl
   | lose c => exact inv_lose hI c
+  | vanish c => exact inv_conns hI (ext_vanish _ c)
   | setDial p ok => exact inv_setDial hI p ok
   | release p => exact inv_release hI p
   | close p => exact inv_close hI p
   | setSlave p b => exact inv_setIsSlave hI p b
-  | req r => exact inv_request hI r
+  | req r => exact inv_serve hI r
 
 theorem inv_run {s : St} (hI : Inv s) (ops : List Op) : Inv (run s ops) := by
   induction ops generalizing s with
